@@ -7,3 +7,7 @@ def run(ctx):
     run_c15e(ctx)
     from .c15f import run_c15f
     run_c15f(ctx)
+    # with matrix_stability_test = Some(tol) the routine's Ok/Err outcome goes through l21_norm, the identity constructor and Sub: a
+    # wrong helper rejects (or accepts) every matrix (restated from C16-d)
+    from .kernels import run_c16d
+    run_c16d(ctx, "C15-g")
